@@ -168,6 +168,7 @@ package storage
 //@   trusted
 //@   modifies db.meltrow, db.faults
 //@   requires @legal [C05] db.melt[quoteId] ==> legalMelt(db.meltrow[quoteId].State, state)
+//@   requires @preimage [C05] state != nut05.Paid ==> preimage == ""
 //@   ensures db.faults >= old(db.faults)
 //@   ensures err == nil <==> (db.faults == old(db.faults) && db.melt[quoteId])
 //@   ensures err != nil ==> db.meltrow == old(db.meltrow)
@@ -212,6 +213,8 @@ package storage
 
 //@ func (MintDB).SaveKeyset(ks)
 //@   trusted
+// database/sql stores a uint fee >= 2^63 as a negative integer that GetKeysets can never read back
+//@   requires @fee [C09] ks.InputFeePpk < 9223372036854775808
 //@   modifies db.ks, db.ksrow, db.faults
 //@   ensures err == nil <==> (db.faults == old(db.faults) && !old(db.ks)[ks.Id])
 //@   ensures err != nil ==> db.ks == old(db.ks) && db.ksrow == old(db.ksrow)
